@@ -72,6 +72,11 @@ def prop(r):
             coll = at.args[1].as_atom()
             if coll is not None and coll.func in ("pylist", "pytuple", "pyset") and coll.args and isinstance(coll.args[0], tuple):
                 elems = coll.args[0]
+        if elems is not None and isinstance(at.args[0], Rat) and at.args[0].key() == "$None" and all(isinstance(e, Rat) for e in elems):
+            # None in [a, b, c]: one of them is None
+            alts = [prop(form.apply("cmp_eq", [Rat.sym("None") - e, Rat.const(0)])) for e in elems]
+            res = ("or", alts) if alts else ("const", False)
+            return res if f == "in" else ("not", res)
         if elems is not None and all(_const_of(e) is not None for e in elems) and isinstance(at.args[0], Rat):
             alts = [prop(form.apply("cmp_eq", [at.args[0], e])) for e in elems]
             res = ("or", alts) if alts else ("const", False)
